@@ -41,7 +41,7 @@ func (c05) Cases(tier string) int {
 }
 
 func (c05) Rule() string {
-	return "L2.insert: 40 generated sequences of executorInsertObject calls per case (random targets and paths that mostly follow the target's structure, and executor-style message sets in parents-first and in deliberately wrong orders) compared with the Lean stitching model Ins.apply (value or index of the first rejected message); then fixed fan-out queries and generated queries over fixed and random federations, optionally with 1-2 injected failures (addressed by join id so that they do not depend on the schedule); each case is executed once unscheduled and then under 11 (quick) / 33 (thorough) controlled schedules: every service call and every executor goroutine about to publish its result parks at a gate (under the starve-collector policy also the collector, each time it has received a result) and a controller releases one parked goroutine at a time by policy {random, LIFO, FIFO, deepest path first, shallowest first, calls first, publishers first, starve the collector so that the result channel stays full, hold goroutines that are about to start a dependent step}; gates: service calls, the publish site, the spawn site and (when starving it) the collector; list fan-out up to 18; the response data and the multiset of error messages must be identical in all runs; the harness is built with -race and a reported race kills the worker (attributed to the case); non-trivial = at least 3 service calls; distinct = distinct (federation, query, faults)"
+	return "L2.insert: 40 generated sequences of executorInsertObject calls per case (random targets and paths that mostly follow the target's structure, and executor-style message sets in parents-first and in deliberately wrong orders) compared with the Lean stitching model Ins.apply (value or index of the first rejected message); then fixed fan-out queries and generated queries over fixed and random federations, optionally with 1-5 injected failures (addressed by join id so that they do not depend on the schedule; several calls failing alike and others differently); each case is executed once unscheduled and then under 11 (quick) / 33 (thorough) controlled schedules: every service call and every executor goroutine about to publish its result parks at a gate (under the starve-collector policy also the collector, each time it has received a result) and a controller releases one parked goroutine at a time by policy {random, LIFO, FIFO, deepest path first, shallowest first, calls first, publishers first, starve the collector so that the result channel stays full, hold goroutines that are about to start a dependent step}; gates: service calls, the publish site, the spawn site and (when starving it) the collector; list fan-out up to 18; the response data and the multiset of error messages must be identical in all runs; the harness is built with -race and a reported race kills the worker (attributed to the case); non-trivial = at least 3 service calls; distinct = distinct (federation, query, faults)"
 }
 
 func errMultiset(err error) []string {
@@ -114,8 +114,24 @@ func (c05) Run(c *Ctx, i int) CaseResult {
 			}
 		}
 		if len(dep) > 0 {
-			k := dep[r.Intn(len(dep))]
-			in.Faults = []FaultSpec{{Service: k.svc, MatchID: k.id, Kind: []string{"transport", "gqlerrors", "gqlerrors+data"}[r.Intn(3)]}}
+			// one failing call, or several (some failing alike, some differently: which errors end up next to each
+			// other in the list then depends on the order of the replies, and nothing reported may depend on it)
+			r.Shuffle(len(dep), func(a, b int) { dep[a], dep[b] = dep[b], dep[a] })
+			nf := 1
+			if r.Intn(2) == 0 {
+				nf = 2 + r.Intn(4)
+			}
+			seenKey := map[callKey]bool{}
+			for _, k := range dep {
+				if len(in.Faults) >= nf {
+					break
+				}
+				if seenKey[k] {
+					continue
+				}
+				seenKey[k] = true
+				in.Faults = append(in.Faults, FaultSpec{Service: k.svc, MatchID: k.id, Kind: []string{"transport", "transport", "gqlerrors", "gqlerrors+data"}[r.Intn(4)]})
+			}
 			ref, err = RunFed(c, in, 8*time.Second)
 			if err != nil || ref.Out.Hung {
 				res.Skipped = "not-executed"
